@@ -192,4 +192,11 @@ NodesOK ==
       /\ \A i \in 1..PopCount(n) : NodeAtIn(nds, RootPosSeq(n)[i]) = Roots(n, live)[i]
       /\ \A nd \in nds : IsRoot(n, NodePos(nd)) \/ NodeAtIn(nds, Sib(NodePos(nd))) # Empty
 
+
+\* state constraint for the wide undo configurations: few live leaves in many
+\* slots; a denser state is explored only far enough to undo the block that
+\* led to it
+SparseUndo == \/ Cardinality(live) <= 3
+              \/ (stack # <<>> /\ Cardinality(Head(stack).live) <= 3 /\ marks.und = 0)
+
 =============================================================================
